@@ -16,6 +16,8 @@ import (
 	"verif/sim"
 	"verif/simrt"
 	_ "verif/simtest/c05" // registers C05PROBE/blinded-without-auction
+	_ "verif/simtest/c08" // registers C08PROBE/odd-error-bodies
+	_ "verif/simtest/c18" // registers C18PROBE/odd-headers
 	"verif/simtest/c07"
 	_ "verif/simtest/c09" // registers C09PROBE/unobtainable-client-*
 	_ "verif/simtest/c10" // execution configurations of any shape, resolved for every validator
@@ -89,6 +91,9 @@ func gen(p *simrt.Tape) any {
 	if p.Pct(20) {
 		pl.Reorgs = append(pl.Reorgs, syssim.Reorg{Slot: startSlot + 1 + uint64(p.Intn(4)), Kind: p.Pick(3)})
 	}
+	if p.Pct(15) {
+		pl.OddSpec = []string{"zero-target-aggregators", "zero-sync-target-aggregators", "huge-target-aggregators"}[p.Pick(3)]
+	}
 	return pl
 }
 
@@ -116,6 +121,11 @@ func exec(plan any, sched *simrt.Tape) *sim.Outcome {
 		return out
 	}
 	if len(rec.BuildErrors) > 0 {
+		if strings.HasPrefix(pl.OddSpec, "zero-") {
+			// declining to start on a specification with a zero divisor is an error, not a crash
+			out.Probes["start-refused-on-odd-specification"]++
+			return out
+		}
 		out.Violation = Viol("harness-build", "services failed to start: %v", rec.BuildErrors)
 		return out
 	}
@@ -156,7 +166,7 @@ func init() {
 	}
 	// odd-content probes built with the proposer and auction scenarios: only crashes count here
 	for _, ref := range [][2]string{{"C05PROBE", "blinded-without-auction"}, {"C09PROBE", "unobtainable-client-best"}, {"C09PROBE", "unobtainable-client-deadline"},
-		{"C12", "config-source-chaos"}, {"C10", "precedence"}, {"C05", "propose"}, {"C12", "config-shapes"}} {
+		{"C12", "config-source-chaos"}, {"C10", "precedence"}, {"C05", "propose"}, {"C08PROBE", "odd-error-bodies"}, {"C18PROBE", "odd-headers"}, {"C12", "config-shapes"}} {
 		name, w := ref[1], 1
 		if name == "config-shapes" {
 			ref[1], w = "config-source-chaos", 2
